@@ -86,6 +86,25 @@ type HoldRule struct {
 	used    bool
 }
 
+// RemoveHold drops the rules of a point; AddHold appends one.
+func (r *Run) RemoveHold(point string) {
+	r.holdsMu.Lock()
+	var keep []HoldRule
+	for _, h := range r.Holds {
+		if h.Point != point {
+			keep = append(keep, h)
+		}
+	}
+	r.Holds = keep
+	r.holdsMu.Unlock()
+}
+
+func (r *Run) AddHold(h HoldRule) {
+	r.holdsMu.Lock()
+	r.Holds = append(r.Holds, h)
+	r.holdsMu.Unlock()
+}
+
 // SetHolds replaces the hold rules (safe while the index is running).
 func (r *Run) SetHolds(h []HoldRule) {
 	r.holdsMu.Lock()
